@@ -225,6 +225,10 @@ def extract_region(path, qualname, cls):
         if not pm:
             break
         clause = pm.group(1).strip()
+        # `schedule(static[, chunk])` only fixes the assignment of iterations to threads; the theorems quantify over every assignment,
+        # so the clause carries no information for the model and is dropped.  Anything else (dynamic/guided would be fine too, but
+        # collapse, ordered, reduction, … change the meaning) is outside the form.
+        clause = re.sub(r"schedule\s*\(\s*(static|dynamic|guided)\s*(,\s*\d+\s*)?\)", "", clause).strip()
         if clause not in ("", "nowait"):
             raise ExtractError(f"{qualname}: unsupported clause `{clause}`")
         hm = LOOP_HDR.match(region[pm.end():].lstrip())
